@@ -152,7 +152,7 @@ func drawArgs(t *rapid.T, allowPanic bool) ([]interface{}, bool) {
 }
 
 func TestAccounting(t *testing.T) {
-	hx.Check(t, hx.N{Quick: 4000, Thorough: 25000}, func(t *rapid.T, c *hx.Case) {
+	hx.Check(t, hx.N{Quick: 20000, Thorough: 200000}, func(t *rapid.T, c *hx.Case) {
 		debug.SetGCPercent(-1)
 		runtime.GC()
 		runtime.GC()
@@ -508,7 +508,7 @@ type gop struct {
 }
 
 func TestConcurrentQuiescence(t *testing.T) {
-	hx.Check(t, hx.N{Quick: 300, Thorough: 2500}, func(t *rapid.T, c *hx.Case) {
+	hx.Check(t, hx.N{Quick: 1500, Thorough: 20000}, func(t *rapid.T, c *hx.Case) {
 		old := runtime.GOMAXPROCS(8)
 		defer runtime.GOMAXPROCS(old)
 		hx.Reset(hx.Epoch + 100) // the clock stands still: every event lands in one bucket
